@@ -1,8 +1,8 @@
 package e1
 
 import (
-	"time"
 	"testing"
+	"time"
 
 	"verif/internal/vk"
 )
